@@ -107,6 +107,10 @@ export const CYCLIC = [
   Cyc("(() => { const a = [1]; a.push(a); return a; })()"),
   Cyc('(() => { const o = { a: "x" }; o.self = o; return { a: o, b: [o] }; })()'),
   Cyc('(() => { const o = { a: "x" }; o.self = o; return new Map([[o, 1]]); })()'),
+  // cyclic and holding values JSON cannot write (bigint, Date, Map, function, undefined, typed array)
+  Cyc("(() => { const o = { n: 10n, d: new Date(0), m: new Map([[1, 2n]]), f: () => 0, u: undefined, t: new Uint8Array(1) }; o.self = o; return o; })()"),
+  Cyc("(() => { const a = [1n]; a.push(a); return { a }; })()"),
+  Cyc("(() => { const o = { b: 2n }; o.self = o; return new Set([o]); })()"),
 ];
 
 let POOL = null;
